@@ -95,6 +95,32 @@ def _return_lit(tree, cls, fn, path):
     raise TranslateError("%s.%s has no literal return" % (cls, fn))
 
 
+def _nth(lists, n, what):
+    """n-th literal list compared with `in` in a function, or a TranslateError naming the construct"""
+    if len(lists) <= n:
+        raise TranslateError("%s: expected at least %d literal list(s) after `in`/`not in`, found %d — the test changed shape"
+                             % (what, n + 1, len(lists)))
+    return lists[n]
+
+
+def _lemma_set_tested(func, what):
+    """the lemmas a `<x>.lemma in [..]` or `<x>.lemma == ".."` test of `func` accepts (first such test on `.lemma`)"""
+    found = []
+    for node in ast.walk(func):
+        if isinstance(node, ast.Compare) and len(node.ops) == 1 and isinstance(node.left, ast.Attribute) \
+                and node.left.attr == "lemma":
+            op, c = node.ops[0], node.comparators[0]
+            if isinstance(op, ast.In) and isinstance(c, (ast.List, ast.Tuple, ast.Set)) and \
+                    all(isinstance(e, ast.Constant) and isinstance(e.value, str) for e in c.elts):
+                found.append((node.lineno, node.col_offset, [e.value for e in c.elts]))
+            elif isinstance(op, ast.Eq) and isinstance(c, ast.Constant) and isinstance(c.value, str):
+                found.append((node.lineno, node.col_offset, [c.value]))
+    if not found:
+        raise TranslateError("%s: no test of `.lemma` against a literal list or string found — the construct changed" % what)
+    found.sort()
+    return found[0][2]
+
+
 def lq(x):
     """Lean string literal"""
     return '"' + x.replace("\\", "\\\\").replace('"', '\\"') + '"'
@@ -108,9 +134,30 @@ def lpairs(d):
     return "[" + ", ".join("(%s, %s)" % (lq(k), lq(v)) for k, v in d) + "]"
 
 
-def extract():
-    """everything lifted, as a python dict (also used by the harness for its own, model-independent oracle)"""
+def extract(strict=True):
+    """everything lifted, as a python dict (also used by the harness for its own, model-independent oracle).
+    Any unexpected shape of the source is a TranslateError naming the construct, never a bare IndexError/KeyError.
+    strict=False (oracle-only mode of the harness): what could be lifted is returned, the error text under "_error"."""
     res = {}
+    try:
+        return _extract(res)
+    except TranslateError as e:
+        if strict:
+            raise
+        res["_error"] = str(e)
+        return res
+    except (IndexError, KeyError, AttributeError, TypeError, ValueError) as e:
+        import traceback
+        tb = traceback.extract_tb(e.__traceback__)[-1]
+        msg = "clauseen: the source no longer has the shape expected at translate/clauseen.py:%d (`%s`): %s: %s" % (
+            tb.lineno, (tb.line or "").strip(), type(e).__name__, e)
+        if strict:
+            raise TranslateError(msg)
+        res["_error"] = msg
+        return res
+
+
+def _extract(res):
     rp = os.path.join(core.REPO, "src", "pyrealb", "data", "rules-en.json")
     lp = os.path.join(core.REPO, "src", "pyrealb", "data", "lexicon-en.json")
     try:
@@ -139,87 +186,8 @@ def extract():
     except KeyError as e:
         raise TranslateError("rules-en.json: missing %s" % e)
 
-    # --- NonTerminalEn.py
-    t, p = _src("NonTerminalEn.py")
-    neg = None
-    for node in t.body:
-        if isinstance(node, ast.Assign) and isinstance(node.targets[0], ast.Name) and node.targets[0].id == "negMod":
-            neg = _lit(node.value, "negMod")
-    if not isinstance(neg, dict):
-        raise TranslateError("negMod not found in NonTerminalEn.py")
-    res["negMod"] = list(neg.items())
-    ah = _find_func(t, "NonTerminalEn", "affixHopping", p)
-    lists = _str_lists_compared_with(ah)
-    res["affixLists"] = lists            # [noDoInt, nonFiniteNoDo, nonFiniteNeg]
-    if len(lists) != 3:
-        raise TranslateError("affixHopping: expected 3 literal `in` lists, found %d" % len(lists))
-
-    def is_lemma_or_vaux(e):
-        return (isinstance(e, ast.Attribute) and e.attr == "lemma") or (isinstance(e, ast.Name) and e.id == "vAux")
-    res["affixLemmas"] = _eq_strings(ah, is_lemma_or_vaux)     # be, have, can, do (order of first occurrence)
-    cap = _find_func(t, "NonTerminalEn", "checkAdverbPos", p)
-    res["adverbAux"] = max(_str_lists_compared_with(cap) + [[]], key=len)
-    for call in ast.walk(cap):
-        if isinstance(call, ast.Call) and isinstance(call.func, ast.Name) and call.func.id == "moveAfterAux" and call.args:
-            res["adverbAux"] = _lit(call.args[0], "moveAfterAux argument")
-    pho = _find_func(t, "NonTerminalEn", "passive_human_object", p)
-    res["passiveHumanGenders"] = max(_str_lists_compared_with(pho) + [[]], key=len)
-    # --- PhraseEn.py / DependentEn.py
-    t, p = _src("PhraseEn.py")
-    # `preposition_list` lives in PhraseEn, or (once shared with the dependency notation) in the NonTerminalEn mixin
-    tn, pn = _src("NonTerminalEn.py")
-    if _has_func(t, "PhraseEn", "preposition_list"):
-        pl = _return_lit(t, "PhraseEn", "preposition_list", p)
-    else:
-        pl = _return_lit(tn, "NonTerminalEn", "preposition_list", pn)
-    res["prepositionList"] = {k: sorted(v) for k, v in pl.items()}
-    tq = _find_func(t, "PhraseEn", "tag_question", p)
-    res["tagAuxPhrase"] = _str_lists_compared_with(tq)[0]
-    mo = _find_func(t, "PhraseEn", "move_object", p)
-    res["moveObjectNoMoveTensesPhrase"] = _str_lists_compared_with(mo)[0]
-    pops = [c for c in ast.walk(mo) if isinstance(c, ast.Call) and isinstance(c.func, ast.Attribute) and c.func.attr == "pop"]
-    if len(pops) != 1 or len(pops[0].args) != 1:
-        raise TranslateError("PhraseEn.move_object: the pop call changed")
-    a0 = pops[0].args[0]
-    res["moveObjectPopsIndex0"] = isinstance(a0, ast.Constant) and a0.value == 0
-    t2, p2 = _src("DependentEn.py")
-    res["depHasPrepositionList"] = _has_func(t2, "DependentEn", "preposition_list") or \
-        _has_func(tn, "NonTerminalEn", "preposition_list")
-    tq2 = _find_func(t2, "DependentEn", "tag_question", p2)
-    res["tagAuxDep"] = _str_lists_compared_with(tq2)[0]
-    mo2 = _find_func(t2, "DependentEn", "move_object", p2)
-    l2 = _str_lists_compared_with(mo2)
-    res["moveObjectNoMoveTensesDep"] = l2[0]
-    res["moveObjectAloneDep"] = l2[1]
-    # --- Phrase.py: is the builtin `int` passed to passive_human_object ?
-    t3, p3 = _src("Phrase.py")
-    pi = _find_func(t3, "Phrase", "processInt", p3)
-    arg = None
-    for c in ast.walk(pi):
-        if isinstance(c, ast.Call) and isinstance(c.func, ast.Attribute) and c.func.attr == "passive_human_object":
-            arg = c.args[0].id if isinstance(c.args[0], ast.Name) else None
-    if arg is None:
-        raise TranslateError("Phrase.processInt: call of passive_human_object not found")
-    res["phraseHumanObjectGetsIntValue"] = (arg != "int")
-    res["intGroupsPhrase"] = [l for l in _str_lists_compared_with(pi) if l and l[0] in ("yon", "wos", "wod", "woi")]
-    t4, p4 = _src("Dependent.py")
-    di = _find_func(t4, "Dependent", "processTypInt", p4)
-    res["intGroupsDep"] = [l for l in _str_lists_compared_with(di) if l and l[0] in ("yon", "wos", "wod", "woi")]
-    arg = None
-    for c in ast.walk(di):
-        if isinstance(c, ast.Call) and isinstance(c.func, ast.Attribute) and c.func.attr == "passive_human_object":
-            arg = c.args[0].id if isinstance(c.args[0], ast.Name) else None
-    res["depHumanObjectGetsIntValue"] = (arg is not None and arg != "int")
-    # --- ConstituentEn.py
-    t5, p5 = _src("ConstituentEn.py")
-    de = _find_func(t5, "ConstituentEn", "doElision", p5)
-    ct = _assign_in(de, "contractionEnTable", "contractionEnTable")
-    if not isinstance(ct, dict) or not all(isinstance(k, str) and isinstance(v, str) for k, v in ct.items()):
-        raise TranslateError("contractionEnTable is not a dict of strings")
-    res["contractionEnTable"] = list(ct.items())
-    res["tonicForms"] = sorted(_return_lit(t5, "ConstituentEn", "tonic_forms", p5))
-    res["tonicPe1"] = _return_lit(t5, "ConstituentEn", "tonic_pe_1", p5)
-    res["relativePronouns"] = list(_return_lit(t5, "ConstituentEn", "relative_pronouns", p5))
+    # (stages are ordered so that everything the model-independent oracle needs — rules, closed-class paradigms,
+    #  contraction table, preposition lists — is lifted BEFORE the code-shape constants that only the model needs)
     # --- closed-class verbs and pronoun tables (data)
     closed = []
     for w in ["be", "have", "do"] + [v for _, v in res["compoundAux"]]:
@@ -248,6 +216,87 @@ def extract():
             rows.append([(k, (stem + str(v)) if k == "val" else str(v)) for k, v in r.items()])
         pro[w] = rows
     res["proTables"] = pro
+    # --- ConstituentEn.py
+    t5, p5 = _src("ConstituentEn.py")
+    de = _find_func(t5, "ConstituentEn", "doElision", p5)
+    ct = _assign_in(de, "contractionEnTable", "contractionEnTable")
+    if not isinstance(ct, dict) or not all(isinstance(k, str) and isinstance(v, str) for k, v in ct.items()):
+        raise TranslateError("contractionEnTable is not a dict of strings")
+    res["contractionEnTable"] = list(ct.items())
+    res["tonicForms"] = sorted(_return_lit(t5, "ConstituentEn", "tonic_forms", p5))
+    res["tonicPe1"] = _return_lit(t5, "ConstituentEn", "tonic_pe_1", p5)
+    res["relativePronouns"] = list(_return_lit(t5, "ConstituentEn", "relative_pronouns", p5))
+    # --- PhraseEn.py / DependentEn.py
+    t, p = _src("PhraseEn.py")
+    # `preposition_list` lives in PhraseEn, or (once shared with the dependency notation) in the NonTerminalEn mixin
+    tn, pn = _src("NonTerminalEn.py")
+    if _has_func(t, "PhraseEn", "preposition_list"):
+        pl = _return_lit(t, "PhraseEn", "preposition_list", p)
+    else:
+        pl = _return_lit(tn, "NonTerminalEn", "preposition_list", pn)
+    res["prepositionList"] = {k: sorted(v) for k, v in pl.items()}
+    # --- NonTerminalEn.py
+    tb, pb = _src("NonTerminalEn.py")
+    neg = None
+    for node in tb.body:
+        if isinstance(node, ast.Assign) and isinstance(node.targets[0], ast.Name) and node.targets[0].id == "negMod":
+            neg = _lit(node.value, "negMod")
+    if not isinstance(neg, dict):
+        raise TranslateError("negMod not found in NonTerminalEn.py")
+    res["negMod"] = list(neg.items())
+    ah = _find_func(tb, "NonTerminalEn", "affixHopping", pb)
+    lists = _str_lists_compared_with(ah)
+    res["affixLists"] = lists            # [noDoInt, nonFiniteNoDo, nonFiniteNeg]
+    if len(lists) != 3:
+        raise TranslateError("affixHopping: expected 3 literal `in` lists, found %d" % len(lists))
+
+    def is_lemma_or_vaux(e):
+        return (isinstance(e, ast.Attribute) and e.attr == "lemma") or (isinstance(e, ast.Name) and e.id == "vAux")
+    res["affixLemmas"] = _eq_strings(ah, is_lemma_or_vaux)     # be, have, can, do (order of first occurrence)
+    cap = _find_func(tb, "NonTerminalEn", "checkAdverbPos", pb)
+    res["adverbAux"] = max(_str_lists_compared_with(cap) + [[]], key=len)
+    for call in ast.walk(cap):
+        if isinstance(call, ast.Call) and isinstance(call.func, ast.Name) and call.func.id == "moveAfterAux" and call.args:
+            res["adverbAux"] = _lit(call.args[0], "moveAfterAux argument")
+    pho = _find_func(tb, "NonTerminalEn", "passive_human_object", pb)
+    res["passiveHumanGenders"] = max(_str_lists_compared_with(pho) + [[]], key=len)
+    tq = _find_func(t, "PhraseEn", "tag_question", p)
+    res["tagAuxPhrase"] = _nth(_str_lists_compared_with(tq), 0, "PhraseEn.tag_question (lemmas that are their own tag auxiliary)")
+    mo = _find_func(t, "PhraseEn", "move_object", p)
+    res["moveObjectNoMoveTensesPhrase"] = _nth(_str_lists_compared_with(mo), 0, "PhraseEn.move_object (tenses that do not invert)")
+    pops = [c for c in ast.walk(mo) if isinstance(c, ast.Call) and isinstance(c.func, ast.Attribute) and c.func.attr == "pop"]
+    if len(pops) != 1 or len(pops[0].args) != 1:
+        raise TranslateError("PhraseEn.move_object: the pop call changed")
+    a0 = pops[0].args[0]
+    res["moveObjectPopsIndex0"] = isinstance(a0, ast.Constant) and a0.value == 0
+    t2, p2 = _src("DependentEn.py")
+    res["depHasPrepositionList"] = _has_func(t2, "DependentEn", "preposition_list") or \
+        _has_func(tn, "NonTerminalEn", "preposition_list")
+    tq2 = _find_func(t2, "DependentEn", "tag_question", p2)
+    res["tagAuxDep"] = _nth(_str_lists_compared_with(tq2), 0, "DependentEn.tag_question (lemmas that are their own tag auxiliary)")
+    mo2 = _find_func(t2, "DependentEn", "move_object", p2)
+    res["moveObjectNoMoveTensesDep"] = _nth(_str_lists_compared_with(mo2), 0, "DependentEn.move_object (tenses that do not invert)")
+    # the "no auxiliary" inversion branch: `self.terminal.lemma in ["be", "have"]` (a list or a single string)
+    res["moveObjectAloneDep"] = _lemma_set_tested(mo2, "DependentEn.move_object (verbs inverted without auxiliary)")
+    # --- Phrase.py: is the builtin `int` passed to passive_human_object ?
+    t3, p3 = _src("Phrase.py")
+    pi = _find_func(t3, "Phrase", "processInt", p3)
+    arg = None
+    for c in ast.walk(pi):
+        if isinstance(c, ast.Call) and isinstance(c.func, ast.Attribute) and c.func.attr == "passive_human_object":
+            arg = c.args[0].id if isinstance(c.args[0], ast.Name) else None
+    if arg is None:
+        raise TranslateError("Phrase.processInt: call of passive_human_object not found")
+    res["phraseHumanObjectGetsIntValue"] = (arg != "int")
+    res["intGroupsPhrase"] = [l for l in _str_lists_compared_with(pi) if l and l[0] in ("yon", "wos", "wod", "woi")]
+    t4, p4 = _src("Dependent.py")
+    di = _find_func(t4, "Dependent", "processTypInt", p4)
+    res["intGroupsDep"] = [l for l in _str_lists_compared_with(di) if l and l[0] in ("yon", "wos", "wod", "woi")]
+    arg = None
+    for c in ast.walk(di):
+        if isinstance(c, ast.Call) and isinstance(c.func, ast.Attribute) and c.func.attr == "passive_human_object":
+            arg = c.args[0].id if isinstance(c.args[0], ast.Name) else None
+    res["depHumanObjectGetsIntValue"] = (arg is not None and arg != "int")
     return res
 
 
